@@ -48,7 +48,7 @@ func runRegFail(c *hx.Ctx, n int, ev api.Event, variant string) (*regfailCase, e
 		return nil, err
 	}
 	// a wedged adaptation may not even stop: never wait for the clean-up
-	defer func() { go e.close() }()
+	defer e.closeWithin(2 * time.Second)
 	cs := &regfailCase{Stream: "regfail", N: n, Ev: int(ev), Variant: variant,
 		Healthy: []fPlugin{{ID: 1, Idx: "10", Name: "A"}, {ID: 3, Idx: "30", Name: "C"}}, Late: fPlugin{ID: 4, Idx: "40", Name: "D"},
 		Obs1: fObs{Tokens: []string{}, Handled: []int{}}, Obs2: fObs{Tokens: []string{}, Handled: []int{}}}
